@@ -25,6 +25,7 @@ type Ref struct {
 	B       uint64 // node of the object referred to
 	Pos     token.Position
 	Name    string
+	Write   bool // the identifier is only assigned to here (x = v, x++, x += v, range ... = ): rule 9.7 records no use
 }
 
 // Refs lists, for every identifier use recorded by go/types (Info.Uses) and every implicit field of a selection
@@ -68,6 +69,43 @@ func (p *Pkg) Refs() []Ref {
 		return id, ok
 	}
 	var refs []Ref
+	writes := map[*ast.Ident]bool{}
+	markWrite := func(e ast.Expr) {
+		for {
+			if pe, ok := e.(*ast.ParenExpr); ok {
+				e = pe.X
+				continue
+			}
+			break
+		}
+		if id, ok := e.(*ast.Ident); ok {
+			writes[id] = true
+		}
+	}
+	for _, f := range p.Files {
+		ast.Inspect(f, func(n ast.Node) bool {
+			switch n := n.(type) {
+			case *ast.AssignStmt:
+				if n.Tok != token.DEFINE {
+					for _, l := range n.Lhs {
+						markWrite(l)
+					}
+				}
+			case *ast.IncDecStmt:
+				markWrite(n.X)
+			case *ast.RangeStmt:
+				if n.Tok == token.ASSIGN {
+					if n.Key != nil {
+						markWrite(n.Key)
+					}
+					if n.Value != nil {
+						markWrite(n.Value)
+					}
+				}
+			}
+			return true
+		})
+	}
 	for _, f := range p.Files {
 		// stack of sets of declared objects (a spec with several names declares several)
 		var stack [][]types.Object
@@ -96,16 +134,17 @@ func (p *Pkg) Refs() []Ref {
 			}
 			return []uint64{0}
 		}
-		add := func(pos token.Pos, name string, target types.Object) {
+		add := func(pos token.Pos, name string, target types.Object, write bool) {
 			b, ok := nodeOf(target)
 			if !ok {
 				return
 			}
 			for _, a := range enclosing() {
-				refs = append(refs, Ref{A: a, Witness: witness(a, b), B: b, Pos: p.Fset.PositionFor(pos, false), Name: name})
+				refs = append(refs, Ref{A: a, Witness: witness(a, b), B: b, Pos: p.Fset.PositionFor(pos, false), Name: name, Write: write})
 			}
 		}
 		var pushedStack []bool
+		valueOwner := map[ast.Expr]*ast.Ident{}
 		ast.Inspect(f, func(n ast.Node) bool {
 			if n == nil {
 				if pushedStack[len(pushedStack)-1] {
@@ -116,6 +155,22 @@ func (p *Pkg) Refs() []Ref {
 				return true
 			}
 			pushed := false
+			if e, ok := n.(ast.Expr); ok {
+				if name, ok := valueOwner[e]; ok {
+					// one value per name: the value belongs to its own name only
+					push(n, []*ast.Ident{name})
+					pushed = true
+					if id, ok := n.(*ast.Ident); ok {
+						if o := p.Info.Uses[id]; o != nil {
+							if _, isPkg := o.(*types.PkgName); !isPkg {
+								add(id.Pos(), id.Name, o, writes[id])
+							}
+						}
+					}
+					pushedStack = append(pushedStack, pushed)
+					return true
+				}
+			}
 			switch n := n.(type) {
 			case *ast.FuncDecl:
 				push(n, []*ast.Ident{n.Name})
@@ -123,6 +178,11 @@ func (p *Pkg) Refs() []Ref {
 			case *ast.ValueSpec:
 				push(n, n.Names)
 				pushed = true
+				if len(n.Values) == len(n.Names) {
+					for i, v := range n.Values {
+						valueOwner[v] = n.Names[i]
+					}
+				}
 			case *ast.TypeSpec:
 				push(n, []*ast.Ident{n.Name})
 				pushed = true
@@ -140,7 +200,7 @@ func (p *Pkg) Refs() []Ref {
 			case *ast.Ident:
 				if o := p.Info.Uses[n]; o != nil {
 					if _, isPkg := o.(*types.PkgName); !isPkg {
-						add(n.Pos(), n.Name, o)
+						add(n.Pos(), n.Name, o, writes[n])
 					}
 				}
 			case *ast.SelectorExpr:
@@ -158,7 +218,7 @@ func (p *Pkg) Refs() []Ref {
 							break
 						}
 						fld := st.Field(i)
-						add(n.Sel.Pos(), "(implicit)"+fld.Name(), fld)
+						add(n.Sel.Pos(), "(implicit)"+fld.Name(), fld, false)
 						base = fld.Type()
 					}
 				}
@@ -215,6 +275,19 @@ func (p *Pkg) ZeroRefCandidates() []Candidate {
 		referred[origin(o)] = true
 	}
 	var out []Candidate
+	// a //go:linkname directive in any file of the package exempts the named object
+	linknamed := map[string]bool{}
+	for _, f := range p.Files {
+		for _, cg := range f.Comments {
+			for _, c := range cg.List {
+				if strings.HasPrefix(c.Text, "//go:linkname ") {
+					if fs := strings.Fields(c.Text); len(fs) >= 2 {
+						linknamed[fs[1]] = true
+					}
+				}
+			}
+		}
+	}
 	for _, f := range p.Files {
 		tf := p.Fset.File(f.Pos())
 		path := tf.Name()
@@ -229,16 +302,6 @@ func (p *Pkg) ZeroRefCandidates() []Candidate {
 			continue
 		}
 		_ = path
-		linknamed := map[string]bool{}
-		for _, cg := range f.Comments {
-			for _, c := range cg.List {
-				if strings.HasPrefix(c.Text, "//go:linkname ") {
-					if fs := strings.Fields(c.Text); len(fs) >= 2 {
-						linknamed[fs[1]] = true
-					}
-				}
-			}
-		}
 		for _, d := range f.Decls {
 			// ignore directives anywhere in or directly above the declaration exempt the whole declaration
 			ds, de := tf.Offset(d.Pos()), tf.Offset(d.End())
